@@ -1,6 +1,7 @@
 package props
 
 import (
+	"time"
 	"bytes"
 	"fmt"
 	"sort"
@@ -399,3 +400,81 @@ func TestC08_INP(t *testing.T) {
 }
 
 var _ = tsgu.Packet
+
+// ---- a complete packet is processed when it has arrived, whatever follows (or does not follow) it ----
+
+type c08Settle struct {
+	Opts  gwOpts `json:"gateway"`
+	Kind  string `json:"transport"`
+	Sizes []int  `json:"data_packet_sizes"` // total packet sizes (header + length field + payload); after each one the client stays silent until the host has the payload
+	Seed  byte   `json:"seed"`
+}
+
+func TestC08_SETTLE(t *testing.T) {
+	runProp(t, "C08_SETTLE", func(t *rapid.T) c08Settle {
+		c := c08Settle{Opts: genC01Opts(t), Kind: genKind(t), Seed: rapid.Byte().Draw(t, "seed")}
+		n := rapid.IntRange(1, 5).Draw(t, "n")
+		for i := 0; i < n; i++ {
+			sz := rapid.SampledFrom([]int{4096, 4096, 8192, 12288, 16384, 32768, 65536 - 1, 4095, 4097, 2048, 1024, 11, 100}).Draw(t, "size")
+			if rapid.IntRange(0, 4).Draw(t, "anySize") == 0 {
+				sz = rapid.IntRange(11, 20000).Draw(t, "sizeAny")
+			}
+			c.Sizes = append(c.Sizes, sz)
+		}
+		return c
+	}, func(c c08Settle) (bool, []string) {
+		cl := []string{"kind=" + c.Kind}
+		nt := false
+		for _, s := range c.Sizes {
+			if s%4096 == 0 {
+				nt = true
+				cl = append(cl, "multiple-of-read-size")
+				break
+			}
+		}
+		return nt || len(c.Sizes) > 1, cl
+	}, func(c c08Settle) *Violation {
+		o := resolveHosts(c.Opts)
+		return withGateway(mkGateway(o), func() *Violation {
+			w := W()
+			snap := w.snap()
+			defer w.observe(snap, 0)
+			conn, err := gwc.Dial(c.Kind, inpTarget(userHeader(o, w.User)...), sess.NewConnID())
+			if err != nil {
+				return viol("c08/open", "transport did not open: %v", err)
+			}
+			defer conn.Close()
+			setup, _ := render(histCfg{Opts: o, Kind: c.Kind}, []PktSpec{{K: "hs", Caps: o.serverCaps()}, {K: "tc", Cookie: map[bool]string{true: "valid:A", false: "none"}[o.TokenAuth]}, {K: "ta"}, {K: "cc", Host: "A"}}, "127.0.0.1")
+			for i, u := range setup {
+				conn.Send(u)
+				// every step is answered before the next one is sent
+				if !waitFor(func() bool { return countPackets(conn) >= i+1 }) {
+					return viol("c08/settle/no-answer", "set-up packet %d was not answered while the client stayed silent (%s): %d answers", i, c.Kind, countPackets(conn))
+				}
+			}
+			host := w.L["A"].WaitAccept(snap["A"]+1, 10*time.Second)
+			if host == nil {
+				return viol("c08/setup", "no backend connection after a valid set-up")
+			}
+			total := 0
+			for i, sz := range c.Sizes {
+				n := sz - 10
+				if n < 0 {
+					n = 0
+				}
+				b := streamBytes(c.Seed, total, n)
+				if err := conn.Send(tsgu.Data(b)); err != nil {
+					return viol("c08/settle/send", "%v", err)
+				}
+				total += n
+				if !host.WaitBytes(total, 3*time.Second) {
+					return viol("c08/settle/packet-waits-for-more-bytes", "data packet %d (%d bytes in all, %s) arrived completely, yet its payload reached the host only in part (%d of %d bytes so far) while the client sent nothing more for 3 s; sizes %v", i, sz, c.Kind, len(host.Received()), total, c.Sizes)
+				}
+			}
+			if want := streamBytes(c.Seed, 0, total); !bytes.Equal(host.Received(), want) {
+				return viol("c08/settle/stream", "host received %d bytes, client sent %d (first difference at %d)", len(host.Received()), total, firstDiff(host.Received(), want))
+			}
+			return nil
+		})
+	})
+}
